@@ -18,7 +18,7 @@ PROOF_NOTE = ("Trusted: Lean 4.33 kernel with axioms {propext, Classical.choice,
 PROPS = {
     "C09": {
         "level": "proof",
-        "text": "Kernel-checked theorems for every label list (= every schedule, number of senders, capacity): mailbox occupancy + reserved permits <= capacity; capacity/default/once-only configuration proved on functions translated from src/lib.rs on every run. The model is validated against the real crate by per-run correspondence (seeded scripts on a paused Tokio runtime) and the occupancy monitor runs on every real trace. Real threads: a spawn_blocking sender's blocking_tell(.., None) calls into a full capacity-1 mailbox all wait and return Ok (stress blocking a2); a cancelled send holds no slot (stress cancel). Step-level, any state: free_slot_no_wait (a send issued while a slot is free and nobody is queued ahead holds its permit at once) and full_mailbox_waits (otherwise it is queued FIFO: no failure recorded, mailbox untouched). no_idle_slot (every reachable state): while the mailbox is open, a sender is queued without a permit only when mailbox items + permits handed out = capacity. Net engine (detection build): a hook's tell into its own full mailbox waits or times out - it never ends the hook with a panic.",
+        "text": "Kernel-checked theorems for every label list (= every schedule, number of senders, capacity): mailbox occupancy + reserved permits <= capacity; capacity/default/once-only configuration proved on functions translated from src/lib.rs on every run. The model is validated against the real crate by per-run correspondence (seeded scripts on a paused Tokio runtime) and the occupancy monitor runs on every real trace. Real threads: a spawn_blocking sender's blocking_tell(.., None) calls into a full capacity-1 mailbox all wait and return Ok (stress blocking a2); a cancelled send holds no slot (stress cancel). Step-level, any state: free_slot_no_wait (a send issued while a slot is free and nobody is queued ahead holds its permit at once) and full_mailbox_waits (otherwise it is queued FIFO: no failure recorded, mailbox untouched). no_idle_slot (every reachable state): while the mailbox is open, a sender is queued without a permit only when mailbox items + permits handed out = capacity. Net engine (detection build): a hook's tell into its own full mailbox waits or times out - it never ends the hook with a panic. Real clock (late): a timed tell whose slot is freed well before the deadline while the runtime thread stays busy past it returns Ok.",
         "note": PROOF_NOTE,
         "technique": "Lean 4 invariant proof by induction over label sequences + translated config functions + model/implementation correspondence",
         "monitors": ["C09"],
@@ -90,10 +90,10 @@ PROPS.update({
     },
     "C05": {
         "level": "proof",
-        "text": "Kernel-checked: (a) for every run the JoinHandle output equals the outcome computed from the hook events alone (variant, phase, killed, error source, actor log, panic as JoinError) - theorem on the very predicate C05.ok that is evaluated on real traces; (b) accessor laws for all values of ActorResult, proved about the functions translated from src/actor_result.rs on every run; the translation is differential-tested against the real accessors on all 18 shapes, with independent oracles.",
+        "text": "Kernel-checked: (a) for every run the JoinHandle output equals the outcome computed from the hook events alone (variant, phase, killed, error source, actor log, panic as JoinError) - theorem on the very predicate C05.ok that is evaluated on real traces; (b) accessor laws for all values of ActorResult, proved about the functions translated from src/actor_result.rs on every run; the translation is differential-tested against the real accessors on all 18 shapes, with independent oracles. The atomic kill monitors of C06 (killWins: after a kill() that returned on a not-yet-stopping actor the next on_stop is on_stop(true)) are evaluated for this property too.",
         "note": PROOF_NOTE,
         "technique": "Lean 4 invariant proof + theorems on translated accessor functions + exhaustive differential test of the translation",
-        "monitors": ["C05", "C04"],
+        "monitors": ["C05", "C04", "C06"],
         "extra": ["tables", "stress"],
         "corr": corr(["eager", "shutdown", "mixed", "idle", "burst"]),
         "extract_items": ["FailurePhase", "ActorResult"],
@@ -115,11 +115,11 @@ PROPS.update({
     },
     "C06": {
         "level": "proof",
-        "text": "Kernel-checked: kill_total (in every state kill() is enabled, returns Ok in its own label, queues nothing, records nothing), kill_bound (on the monitor predicate: after kill() on an actor that had not begun to stop at most one further handler starts, for every schedule and queue content; the bound is shown tight), kill_not_lost, kill_prompt. Monitors C06.killTotal / killBound / killOutcome / leftoversFail on every real trace; burst family lands kills at every phase with full mailboxes. Script family `abandon` (sends given up by their callers while queued, then kill / stop / nothing) and, on settled traces, monitor C06.killEnds: an actor on which kill() has returned has ended (the safety half is kill_not_lost + kill_prompt). On the single-threaded correspondence the monitors are the atomic ones: after a kill() that returned on a not-yet-stopping actor no handler starts (killBoundAtomic), no on_run pass begins or completes (noRunAfterKill) and the next on_stop is on_stop(true) (killWins). Progress: killed_actor_does_not_idle - when nothing can run any more, an actor with a pending kill has ended or is inside the hook that was in progress.",
+        "text": "Kernel-checked: kill_total (in every state kill() is enabled, returns Ok in its own label, queues nothing, records nothing), kill_bound (on the monitor predicate: after kill() on an actor that had not begun to stop at most one further handler starts, for every schedule and queue content; the bound is shown tight), kill_not_lost, kill_prompt. Monitors C06.killTotal / killBound / killOutcome / leftoversFail on every real trace; burst family lands kills at every phase with full mailboxes. Script family `abandon` (sends given up by their callers while queued, then kill / stop / nothing) and, on settled traces, monitor C06.killEnds: an actor on which kill() has returned has ended (the safety half is kill_not_lost + kill_prompt). On the single-threaded correspondence the monitors are the atomic ones: after a kill() that returned on a not-yet-stopping actor no handler starts (killBoundAtomic), no on_run pass begins or completes (noRunAfterKill) and the next on_stop is on_stop(true) (killWins). Progress: killed_actor_does_not_idle - when nothing can run any more, an actor with a pending kill has ended or is inside the hook that was in progress. The hook-language monitor C04.accepts is evaluated for this property too: an on_stop(killed=true) that began ends before the actor is joined.",
         "note": PROOF_NOTE,
         "technique": "Lean 4 fold-invariant proof (budget argument over the split select) + correspondence + Lean monitors on real traces",
         "extra": ["stress"],
-        "monitors": ["C06"],
+        "monitors": ["C06", "C04"],
         "corr": corr(["handles", "abandon", "eager", "shutdown", "burst", "mixed", "idle"], erase="both"),
         "extract_items": [],
         "assumptions": COMMON_ASSUME,
@@ -151,7 +151,7 @@ PROPS.update({
     },
     "C11": {
         "level": "proof",
-        "text": "Kernel-checked: ids_unique for any number of spawns (the allocator constants are extracted from src/lib.rs), alive_true / alive_false (is_alive on a strong handle is true until the actor has ended and false afterwards, for every run), sends_fail_after_end, upgrade_iff. Identity copying and the two-channel liveness predicates are extracted shape lemmas (handle_algebra_shape, forwarders_verbatim). upgrade_truthful_monitor (Inv/Handles: the strong handles read off the trace are those of the handle table, and every failed upgrade in every run happened while the script held none - the predicate Monitor.C11.upgradeTruthful that runs on real traces). Probes alive/upgrade are script operations compared step by step with the real crate; monitor C11 on real traces; stress ids (incl. failing on_start) and refs (no-yield handle sequences, identity through every way of copying a handle between two actors). Stress scenario `afterend`: after the JoinHandle resolved (actor ended by kill or stop with messages still queued) is_alive is false and every send fails at once, from worker tasks of a multi-thread runtime and on a current-thread runtime that polls the driver every tick.",
+        "text": "Kernel-checked: ids_unique for any number of spawns (the allocator constants are extracted from src/lib.rs), alive_true / alive_false (is_alive on a strong handle is true until the actor has ended and false afterwards, for every run), sends_fail_after_end, upgrade_iff. Identity copying and the two-channel liveness predicates are extracted shape lemmas (handle_algebra_shape, forwarders_verbatim). upgrade_truthful_monitor (Inv/Handles: the strong handles read off the trace are those of the handle table, and every failed upgrade in every run happened while the script held none - the predicate Monitor.C11.upgradeTruthful that runs on real traces). Probes alive/upgrade are script operations compared step by step with the real crate; monitor C11 on real traces; stress ids (incl. failing on_start) and refs (no-yield handle sequences, identity through every way of copying a handle between two actors). Stress scenario `afterend`: after the JoinHandle resolved (actor ended by kill or stop with messages still queued) is_alive is false and every send fails at once, from worker tasks of a multi-thread runtime and on a current-thread runtime that polls the driver every tick. The ids scenario creates its 32,000 actors through spawn() and spawn_with_mailbox_capacity() alike.",
         "note": PROOF_NOTE + " Atomicity of fetch_add is assumed (std); identities of different actors are compared in the multi-actor scripts of C12/C14.",
         "technique": "Lean 4 theorems on the step function and the allocator + extracted shape lemmas + correspondence with liveness probes",
         "extra": ["stress"],
@@ -254,7 +254,7 @@ PROPS.update({
 PROPS.update({
     "C19": {
         "level": "proof",
-        "text": "Kernel-checked: decision_table - for every form of the #[handler] attribute (bare, any list of result/no_log/unknown options in any order and multiplicity, name-value), every declared return type (none, any path type, any other type) and both answers to 'is it really a Result', the macro's decision (compile error / impl that logs Err after tell / impl that logs nothing) equals the documented table stated independently; corollaries no_log_never_logs, result_and_no_log_is_error, non_result_logs_nothing, result_spelling_logs. is_result_type and the should_generate block are translated from rsactor-derive/src/lib.rs on every run; option parsing and the quote! templates (Reply = declared return type, handle = self.method(msg, actor_ref).await, generated on_tell_result = `if let Err(ref e) = result { error!(..) }` only, derive(Actor) = Args Self / Infallible / Ok(args), generics forwarded) are extracted shape lemmas; the runtime calls on_tell_result only without a reply channel (handle_message_shape). Real side: a generated corpus of actor programs over the grammar return-type spelling (15: unit, plain, Result in five spellings incl. bare fmt::Result and bare/generic aliases, alias not named Result, Option, tuple, Box, reference, a user type named Result) x attribute form (11) x actor kind (struct, enum, generic, generic with where clause) x message kind (plain, generic), each with co-existing non-handler methods, compiled against the real macros: programs the model calls errors must fail to compile (without any use site, so only the macro or its output can fail), the others are run through ask and tell with Ok and Err values: replies equal the method's value, error events after tell(Err) = 1 iff the model says 'log' (with the error's Display text), 0 after ask and after tell(Ok), the handler ran once per message, derive(Actor) hands back its argument. Runtime half, kernel-checked on the actor model: tell_result_adjacent (in every run tellResult/replySent occur only immediately after the handler of the same message returned, at most one of them, never after a panic) and result_follows_kind (a tell's handler is followed by on_tell_result and no reply, an ask's by its reply and no on_tell_result); the same automaton (C19.accepts) and the kind-aware C19.adjacent run on every real correspondence trace. Real threads: in the blocking stress scenario the actor overrides on_tell_result: after every tell-family blocking form (blocking_tell with and without timeout, tell_blocking) it is invoked exactly once with the handler's value, after ask-family forms never. Stress askjoin: a handler that returns a JoinHandle - ask_join gives exactly what awaiting that handle gives, whatever happens to the actor meanwhile.",
+        "text": "Kernel-checked: decision_table - for every form of the #[handler] attribute (bare, any list of result/no_log/unknown options in any order and multiplicity, name-value), every declared return type (none, any path type, any other type) and both answers to 'is it really a Result', the macro's decision (compile error / impl that logs Err after tell / impl that logs nothing) equals the documented table stated independently; corollaries no_log_never_logs, result_and_no_log_is_error, non_result_logs_nothing, result_spelling_logs. is_result_type and the should_generate block are translated from rsactor-derive/src/lib.rs on every run; option parsing and the quote! templates (Reply = declared return type, handle = self.method(msg, actor_ref).await, generated on_tell_result = `if let Err(ref e) = result { error!(..) }` only, derive(Actor) = Args Self / Infallible / Ok(args), generics forwarded) are extracted shape lemmas; the runtime calls on_tell_result only without a reply channel (handle_message_shape). Real side: a generated corpus of actor programs over the grammar return-type spelling (15: unit, plain, Result in five spellings incl. bare fmt::Result and bare/generic aliases, alias not named Result, Option, tuple, Box, reference, a user type named Result) x attribute form (11) x actor kind (struct, enum, generic, generic with where clause) x message kind (plain, generic), each with co-existing non-handler methods, compiled against the real macros: programs the model calls errors must fail to compile (without any use site, so only the macro or its output can fail), the others are run through ask and tell with Ok and Err values: replies equal the method's value, error events after tell(Err) = 1 iff the model says 'log' (with the error's Display text), 0 after ask and after tell(Ok), the handler ran once per message, derive(Actor) hands back its argument. Runtime half, kernel-checked on the actor model: tell_result_adjacent (in every run tellResult/replySent occur only immediately after the handler of the same message returned, at most one of them, never after a panic) and result_follows_kind (a tell's handler is followed by on_tell_result and no reply, an ask's by its reply and no on_tell_result); the same automaton (C19.accepts) and the kind-aware C19.adjacent run on every real correspondence trace. Real threads: in the blocking stress scenario the actor overrides on_tell_result: after every tell-family blocking form (blocking_tell with and without timeout, tell_blocking) it is invoked exactly once with the handler's value, after ask-family forms never. Stress askjoin: a handler that returns a JoinHandle - ask_join gives exactly what awaiting that handle gives, whatever happens to the actor meanwhile. Every corpus program also issues ask_with_timeout(.., ZERO) with a failing handler: no error log (an ask is never a tell), the handler runs.",
         "note": PROOF_NOTE + " rustc's own behaviour (trait resolution, `if let Err` typing) is part of the trusted base of the corpus run.",
         "technique": "Lean 4 proof of the decision table over definitions translated from the macro source + extracted templates + generated program corpus compiled and run against the real macros",
         "monitors": ["C19", "C01"],
